@@ -18,6 +18,7 @@ pub fn main(args: &[String]) -> i32 {
         f.n_fns = std::env::var("DBG_NFNS").ok().and_then(|v| v.parse().ok()).unwrap_or(1);
         f.max_depth = std::env::var("DBG_DEPTH").ok().and_then(|v| v.parse().ok()).unwrap_or(2);
         f.ticks = false;
+        f.ident_mode = std::env::var("DBG_IDENT").ok().and_then(|v| v.parse().ok()).unwrap_or(0);
         let (prog, _tags) = generate(&mut rng, f);
         let src = print_program(&prog, PrintOpts::default());
         let exp = crate::gl::eval::run_program(&prog, 400_000);
